@@ -4,7 +4,7 @@ from checks import tracker_common as tc
 MANIFEST = dict(level="model_checking", design="4 (C12)",
     technique="TLA+ spec (Visual.tla): operational cascade checked by TLC to lie inside the declarative C12 outcome on every generated step; TLC-enumerated / simulated VisualSORT histories replayed into VisualSort and BatchVisualSort",
     text="Visual.tla models the use gates (feature present, quality), the minimal number of collected features, votes within the visual threshold, claim weights, 'a track goes to its heaviest claimant', 'a detection's heaviest claim decides', the positional fallback over tracks not taken and the voting type; TLC asserts on every generated step that the outcome satisfies the declarative C12 conditions (a visual attachment is a claim of maximal weight, a loser starts a new track, no positional attachment to a visually taken track, no track twice). Exhaustive short histories (look-alike and overlapping objects on one slot told apart only by feature symbols, all qualities around the use / collect thresholds) and 7..40-step simulations over several option sets are replayed into the real VisualSort / BatchVisualSort; ids, lengths, epochs, voting types, galleries and collected counts are compared.",
-    note="R1 slot world: appearance matches across slots are excluded (they move the Kalman estimate off the lattice). Steps with tied claim weights or tied positional optima are not generated. Own-area shares are exact in the slot world (a detection shares its slot with another one of the call, or not); minimal area is fixed at 'always usable'.")
+    note="R1 slot world: appearance matches across slots are excluded (they move the Kalman estimate off the lattice). Steps with tied claim weights or tied positional optima are not generated. Own-area shares are exact in the slot world (a detection shares its slot with another one of the call, or not); minimal area is exercised with a bound between the areas of the slot boxes; Euclidean and cosine metrics both (feature symbols are points with a constant distance / similarity table in the specification).")
 LEVEL = MANIFEST["level"]
 RULE = ("behaviours = TLC enumeration (depth 2-3) and seeded simulations of GenVis over several option sets; non-trivial = a step "
         "in which an appearance claim loses (contested track); distinct by construction / by seed")
@@ -17,6 +17,8 @@ def plans(quick):
          ("v-sim7", dict(depth=7, Sim=6), {"num": 25 if quick else 400, "depth": 8}),
          ("v-sim7-mv2", dict(depth=7, Sim=6, MinVotes=2, MaxObs=3, MinTrackLen=2), {"num": 25 if quick else 300, "depth": 8}),
          ("v-sim9-full-gallery", dict(depth=9, Sim=6, MinTrackLen=2, MaxObs=2, Slots={1}), {"num": 25 if quick else 300, "depth": 10}),
+         ("v-cosine", dict(depth=7, Sim=6, VisKind="cosine", VisThr=5), {"num": 20 if quick else 300, "depth": 8}),
+         ("v-min-area", dict(depth=7, Sim=6, MinArea=3000), {"num": 20 if quick else 300, "depth": 8}),
          ("v-own", dict(depth=7, Sim=6, OwnUse=50, OwnCollect=50), {"num": 25 if quick else 300, "depth": 8}),
          ("v-own-batch", dict(depth=5, Sim=12, OwnUse=50, OwnCollect=50, Kind="batch", Scenes={1, 2}, Slots={1, 2}, Confs={900},
                               Feats={1, 2}, Quals={30, 90}, MaxDets=2), {"num": 12 if quick else 150, "depth": 6}),
